@@ -39,8 +39,13 @@ MANIFEST = {
                   "optimised Encodes) flag word + tfhd defaults of the first trun; C05_roundtrip_with_encodes / _nil / _single: additions "
                   "interleaved with any number of PLAIN Encodes read back exactly (the last Encode decides; multi-track AddFullSampleToTrack "
                   "and single-track AddFullSample histories, optimisation on/off in the final Encode, any trex / nil); "
-                  "C05_roundtrip_with_encodes_guarded: any Encodes in the middle, also with OptimizeTrun, under enc_guard on the state the final "
-                  "Encode sees (first trun resolves to its own samples under its flag word + tfhd defaults; other truns carry all four fields), "
+                  "C05_plain_encodes_invisible: for ANY starting fragment and all six operations the final Encode after plain Encodes returns THE "
+                  "SAME encoded fragment as after the additions alone (it rewrites every data offset; OptimizeTfhdTrun never reads one), "
+                  "unless a middle Encode saw > 4 GiB - 9 of payload and left the large-size mark: every encode-free theorem transfers by "
+                  "rewriting, done for C05_roundtrip_with_encodes_modes (single-track, all six operations, one data mode); "
+                  "C05_roundtrip_with_encodes_guarded / _first: any Encodes in the middle, also with OptimizeTrun, under the guard first_selfres "
+                  "on the state the final Encode sees (the first trun of the first traf resolves to its own samples under its flag word + "
+                  "tfhd defaults); that every other trun keeps all four fields is proved as an invariant (C05_encodes_others_keep_fields); "
                   "structure level; C05_encodes_opt_refuted = known finding C05-F10 (guard false, stale duration); "
                   "C05_optimized_trun_decodes_cto: DecodeTrun's 1024 guard accepts the optimised form of EVERY trun that has a composition-"
                   "offset field, whatever its other flags, for any sample count; C05_optimized_trun_nocto_refuted: without that field (flags "
@@ -51,9 +56,8 @@ MANIFEST = {
                   "data offsets is the moof start (position of the fragment's first box + sizes of the boxes in front of the moof) for every "
                   "decoded fragment of every segment; with the fragment start as base a fragment with an emsg in front does not read back. "
                   "NOT proved, explored only (correspondence + search): AddEmsg / AddChild on fragments that are not created ones (NewFragment, "
-                  "decoded fragments: corr kind L and probe:emsg), Encode in the middle of metadata-only / interval histories (simulation proved, "
-                  "round trip only searched), that the 'other truns carry all four fields' half of enc_guard always holds for API-built fragments "
-                  "(hypothesis of the guarded theorem; proved only for plain Encodes), byte level of extra children inside moof/traf and of the "
+                  "decoded fragments: corr kind L and probe:emsg), OPTIMISED Encodes in the middle of metadata-only / interval / single-track "
+                  "histories (simulation proved; round trip under the guard only for multi-track full-sample histories), byte level of extra children inside moof/traf and of the "
                   "boxes around the fragments (sizes only), EncodeSW vs Encode and DecodeFile vs DecodeFileSR (one model; differences are searched), "
                   "Fragment.GetSampleInterval (search oracle only).",
     "level_note": "Trusted: Coq kernel, extraction (ExtrOcamlBasic), OCaml/Go glue, generators. The model is a hand transcription tied to "
